@@ -695,6 +695,49 @@ def cells3(count, rng):
     return cases
 
 
+def removed3(count, rng):
+    """polyhedra whose dart blocks are separated by removed darts (front, between the two cells, last), some of the
+    removed slots keeping a stale coordinate: [gap][A][gap][B][gap], every gap dart removed with `rm`; then the cells are
+    3-sewn on their coinciding face (or left apart).  A removed dart must not appear in the scene and its neighbour in
+    the numbering must not disappear."""
+    cases = []
+    pairs = gens.cell_pairs()
+    k = 0
+    while len(cases) < count:
+        name, A, B = pairs[k % len(pairs)]
+        k += 1
+        g = [rng.randint(0, 2) for _ in range(3)]
+        if sum(g) == 0:
+            g[rng.randrange(3)] = 1
+        a = gens.Poly3(A, 1 + g[0])
+        b = gens.Poly3(B, 1 + g[0] + a.ndarts + g[1])
+        n = g[0] + a.ndarts + g[1] + b.ndarts + g[2]
+        gaps = list(range(1, 1 + g[0])) + list(range(1 + g[0] + a.ndarts, 1 + g[0] + a.ndarts + g[1])) + \
+            list(range(n - g[2] + 1, n + 1))
+        lines = [f"new 3 {n} 0"] + a.lines(True, True, True)
+        single = rng.random() < 0.3
+        if not single:
+            lines += b.lines(True, True, True)
+        else:
+            gaps += b.darts
+        for d in gaps:
+            if rng.random() < 0.5:
+                lines.append(f"wv {d} {gens.dy(rng, -3, 3, 2)} {gens.dy(rng, -3, 3, 2)} {gens.dy(rng, -3, 3, 2)}")
+        rng.shuffle(gaps)
+        lines += [f"rm {d}" for d in gaps]
+        sig = "removed darts around one cell"
+        if not single:
+            pr = gens.glue_pairs(a, b)
+            sig = "removed darts around two cells apart"
+            if pr and rng.random() < 0.7:
+                x, y = rng.choice(pr)
+                lines.append(f"fsew 3 {x} {y}")
+                sig = "removed darts around two cells 3-sewn"
+        lines += ["snap", "scene"]
+        cases.append(Case(f"rm3-{k}-{name}", lines, oracle="scene", meta={"sig": sig, "dim": 3, "geometry": True}))
+    return cases
+
+
 def straight3(rng):
     """directed: a cube one side of which carries a mid-side vertex (what inserting a vertex on an edge produces):
     two pentagonal faces with a straight corner"""
@@ -758,6 +801,7 @@ def run(tier, seed):
     parts.append(("planar meshes 2-D", campaign20(meshes2(1200 if q else 12000, rng), binary)))
     parts.append(("edit histories 2-D", campaign20(histories2(800 if q else 8000, rng), binary)))
     parts.append(("polyhedra 3-D", campaign20(cells3(175 if q else 1750, rng), binary)))
+    parts.append(("polyhedra 3-D with removed darts in the numbering", campaign20(removed3(140 if q else 1400, rng), binary)))
     parts.append(("straight corners 3-D (directed)", campaign20(straight3(rng), binary)))
     res = hv.merge_results(parts)
     res["stats"]["oracle_domain"] = dict(sorted(COUNTS.items()))
